@@ -15,6 +15,14 @@
 //!   * `into_recursion_input` of the output is accepted by the next layer's verifier;
 //!   * the same call with and without cache has the same verdict.
 //!
+//! A second, self-contained scenario (`boundary.rs`) runs next to the BFS: the `_cross`
+//! aggregation entry point with input and output configs of DIFFERENT ZK-ness (hiding-PCS
+//! children into a plain proof and the reverse, plus the hiding->hiding control), over base and
+//! depth-1 children, with no cache / empty slot / filled slot, each output fed to a further
+//! really-proved layer under the output config. Its cases are independent histories (own config
+//! objects, own slot), so nothing is de-duplicated there; counts are reported separately under
+//! `coverage.config_boundary` and added to `states` / `transitions`.
+//!
 //! ## Why states are de-duplicated by (shape ids, cache provenance/content, params) only
 //! The API functions are pure functions of their explicit arguments: config, backend and
 //! params are immutable values, there is no global or thread-local state in
@@ -46,6 +54,7 @@
 //! implementation (`traces_validated_against_impl == transitions`); edges of the state graph
 //! that repeat an already executed call are counted separately (`state_graph_edges`).
 
+mod boundary;
 mod engine;
 mod glue;
 mod objs;
@@ -549,6 +558,74 @@ fn main() {
         scenarios = vec![al];
     }
     let replay_value = ctx.replay.as_ref().map(|p| vpcore::load_replay(p));
+    // test-grade FRI parameters (new_testing, with blowup 2 instead of 4 to halve proving time)
+    let mut fri = TEST_FRI;
+    fri.log_blowup = 1;
+    let mk_env_with = |fri: FriParams| Env { cfg: make_cfg(&fri), backend: make_backend(), fri, params: params_alphabet(&fri, 3) };
+    let mk_env = || mk_env_with(fri);
+    // The config-boundary scenario keeps blowup 4 (`FriParameters::new_testing`): with a hiding PCS
+    // the quotient of the degree-3 table constraints needs 4 chunks of the extended domain
+    // (log2_ceil(3 - 1 + is_zk) = 2 > log_blowup 1), a requirement of the p3 STARK stack itself.
+    let mk_benv = || mk_env_with(TEST_FRI);
+
+    // ---- config-boundary scenario (see boundary.rs) -------------------------------------
+    // replay of one stored boundary case
+    if let Some(b) = replay_value.as_ref().and_then(|rp| rp.get("boundary")) {
+        let thorough = !ctx.quick();
+        let specs: Vec<boundary::CaseSpec> = match b.get("children").and_then(|t| t.as_str()) {
+            // a child of one config failed: re-produce the children of that config (and one case over them)
+            Some(tag) => vec![boundary::CaseSpec {
+                dir: if tag == "zk" { "zk_to_zk" } else { "plain_to_plain" },
+                x: "B0".into(),
+                y: "B0".into(),
+                p: 0,
+            }],
+            None => {
+                let dir = boundary::DIRS
+                    .iter()
+                    .copied()
+                    .find(|d| Some(*d) == b["dir"].as_str())
+                    .unwrap_or_else(|| machinery_error("bad direction in boundary replay"));
+                let st = |k: &str| b[k].as_str().unwrap_or_else(|| machinery_error("bad boundary replay")).to_string();
+                vec![boundary::CaseSpec { dir, x: st("x"), y: st("y"), p: b["p"].as_u64().unwrap_or(0) as usize }]
+            }
+        };
+        // the children of the thorough tier include those of the quick tier: a case over a
+        // thorough-only child is replayed with the thorough children set
+        let wide = thorough || specs.iter().any(|s| s.x.contains("U0)") || s.y.contains("U0)") || s.x.contains("(U0") || s.y.contains("(U0"));
+        let run = boundary::run(&mk_benv(), ctx.seed, &specs, wide, &|| false).unwrap_or_else(|e| machinery_error(&e));
+        for (t, s) in &run.child_steps {
+            println!("child [{t}] {}  =>  {} {}", s.call, s.verdict.tag(), s.verdict.detail());
+        }
+        for c in &run.cases {
+            for (i, s) in c.steps.iter().enumerate() {
+                println!("step {i}: {}  =>  {} {}", s.call, s.verdict.tag(), s.verdict.detail());
+            }
+        }
+        for (size, k, what, rp) in boundary::clauses(&run) {
+            report.violation_sized(k, what, rp, size);
+        }
+        let (ev, n) = boundary::evidence(&run, &specs, thorough);
+        finish(
+            &ctx,
+            json!({"states": n.states, "transitions": n.transitions, "traces_validated_against_impl": n.transitions,
+                   "samples": ev["samples"], "mode": "replay", "config_boundary": ev}),
+            vec![],
+            &report,
+        );
+    }
+    // The scenario runs before the BFS (its cases are few and internally parallel: the uncached call
+    // and the slot history of a case run side by side); the BFS takes what is left of the budget.
+    let boundary_specs = if replay_value.is_some() || ctx.opt("boundary") == Some("0") { vec![] } else { boundary::cases(!ctx.quick()) };
+    let boundary_run: Option<boundary::BoundaryRun> = if boundary_specs.is_empty() {
+        None
+    } else {
+        let oot = || ctx.used() > 0.85;
+        let r = boundary::run(&mk_benv(), ctx.seed, &boundary_specs, !ctx.quick(), &oot)
+            .unwrap_or_else(|e| machinery_error(&format!("config-boundary scenario: {e}")));
+        eprintln!("C17 config-boundary scenario: {} cases, {} child steps, t={:.1}s", r.cases.len(), r.child_steps.len(), ctx.elapsed_s());
+        Some(r)
+    };
     let mut all_bases: Vec<String> = vec![];
     if let Some(rp) = &replay_value {
         for b in rp["bases"].as_array().cloned().unwrap_or_default() {
@@ -563,10 +640,7 @@ fn main() {
             }
         }
     }
-    // test-grade FRI parameters (new_testing, with blowup 2 instead of 4 to halve proving time)
-    let mut fri = TEST_FRI;
-    fri.log_blowup = 1;
-    let env = Env { cfg: make_cfg(&fri), backend: make_backend(), fri, params: params_alphabet(&fri, 3) };
+    let env = mk_env();
     let mut w = World {
         env,
         shapes: vec![],
@@ -879,6 +953,21 @@ fn main() {
             ));
         }
     }
+    // ---- config-boundary scenario: collect ---------------------------------------------------
+    let mut boundary_ev = Value::Null;
+    let mut boundary_counts = boundary::BoundaryCounts { transitions: 0, states: 0, compared: 0 };
+    if let Some(run) = &boundary_run {
+        for (size, k, what, rp) in boundary::clauses(run) {
+            report.violation_sized(k, what, rp, size);
+        }
+        if run.skipped_for_budget > 0 {
+            exhaustive = false;
+        }
+        let (ev, n) = boundary::evidence(run, &boundary_specs, !ctx.quick());
+        boundary_ev = ev;
+        boundary_counts = n;
+    }
+
     // shortest history first, so that the case kept per key is the minimal one
     violations.sort_by(|a, b| (a.0, a.1, a.2).cmp(&(b.0, b.1, b.2)));
     for (_, _, _, k, what, rp) in violations {
@@ -886,7 +975,8 @@ fn main() {
     }
 
     // ---- evidence --------------------------------------------------------------------------
-    let transitions = w.order.len() as u64;
+    let bfs_transitions = w.order.len() as u64;
+    let transitions = bfs_transitions + boundary_counts.transitions;
     let mut samples: Vec<Value> = vec![];
     let mut seen_tags = BTreeSet::new();
     for c in &w.order {
@@ -910,8 +1000,11 @@ fn main() {
     }
     let total_secs: f64 = w.memo.values().map(|s| s.secs).sum();
     let coverage = json!({
-        "states": states_total,
+        "states": states_total as u64 + boundary_counts.states,
         "transitions": transitions,
+        "bfs_states": states_total,
+        "bfs_transitions": bfs_transitions,
+        "config_boundary": boundary_ev,
         "traces_validated_against_impl": transitions,
         "state_graph_edges": edges,
         "param_switch_edges": p_edges,
@@ -928,13 +1021,14 @@ fn main() {
         "shape_samples": w.shapes.iter().take(12).map(|s| json!({"label": s.label, "level": s.level, "L_circuit_counters": s.l_counters, "key_digest": format!("{:016x}", fnv64(s.key.as_bytes()))})).collect::<Vec<_>>(),
         "verdicts": histo.to_json(),
         "verdicts_by_call_class": class_histo.to_json(),
-        "cached_vs_uncached_pairs_compared": compared,
+        "cached_vs_uncached_pairs_compared": compared + boundary_counts.compared,
         "collision_search": {"circuits_compared": searched, "counter_groups": by_counters.len(), "collisions": collisions},
         "cpu_s_in_calls": (total_secs * 10.0).round() / 10.0,
         "samples": samples,
     });
     let assumptions = vec![
         "KoalaBear, D=4, Poseidon2 width 16, non-ZK TwoAdicFriPcs with test-grade FRI parameters (blowup 2, 2 queries, 1+1 PoW bits, final poly len 1): the cache logic under test does not depend on them".to_string(),
+        "config-boundary scenario: the second config is the same stack behind HidingFriPcs (2 random codewords, SmallRng seeded from the case label and VERIF_SEED); the blinding randomness only changes values inside proofs, never the set of cases; every case builds its own config objects, so cases are independent of thread scheduling".to_string(),
         "states are identified by (shape ids, next-layer cache provenance, observed aggregation-slot content, params): the API is a pure function of its explicit arguments; shape id = proof metadata + digest of the complete next-layer verification circuit".to_string(),
         "a cache object is re-created on the worker thread by replaying the real calls that produced it (Rc is not Send); the prover is deterministic in this configuration (replayed slot content is compared with the registered content)".to_string(),
         "the cached BatchStarkProver inside a cache object is opaque; the table packing / ALU variant it stamps on the proof of the filling call stands in for its configuration in the slot content key".to_string(),
